@@ -15,6 +15,9 @@ ANNOTATED = [
     '"A" // {enum: ["\\u0041", "B"]}', '"A" /* {enum: ["\\u0041", "B"]} */', '1 // {"\\u006din": 0}', '"x" // {regex: "\\u0078"}', '"s" // {enum: ["s", "a\\\\b", "q\\"q"]}',
     '{\n  "a": "A", // {enum: ["\\u0041"]} - note\n  "b": 2\n}', '"A" /* {enum: ["\\u0041"]}\n - note */', '"\\u0041" // {minLength: 1}', '{\n  "\\u0061": 1 // {min: 0}\n}',
     '"A" // {or: [{type: "string", enum: ["\\u0041"]}, "integer"]}',
+    # a user comment after the note of an annotation
+    '42 // the answer # remark', '{"id": 1} // an object # remark', '@a | @b // pets # remark', '1 // {min: 0} - note # c', '"s" /* note */ # c',
+    '[\n  1 // one # c1\n] // end # c2', '1 // n #',
     # blanks between the value and the end of its line
     '{} #', '1 #', '{\n  "a": 1 #\n}', '1 # ',
     '@t ', '@t\t', '@a | @b ', '@a | @b\t ', '1 ', '"a"\t', '{} ', '[1] ', 'true  ', '1 // n ', '@t // n ', '{\n  "a": @t \n}', '[\n  @a | @b \n] ',
